@@ -64,8 +64,9 @@ func iterOrdinal(fn *ssa.Function, site ssa.Instruction) int {
 func (vc *VC) iterCall(fr *frame, st *State, site ssa.Instruction, fc *FuncContract, args []Value, ptypes []SType) {
 	spec := fc.Iterates
 	cv, ok := args[spec.ParamIdx].(*ClosureVal)
-	if !ok {
-		vc.fail("iteration primitive %s called with an opaque delegate", fc.Key)
+	if !ok || cv.fn.Blocks == nil {
+		vc.forwardIter(fr, st, site, fc, args, ptypes)
+		return
 	}
 	name := fc.Key
 	ord := iterOrdinal(fr.fn, site)
@@ -100,10 +101,20 @@ func (vc *VC) iterCall(fr *frame, st *State, site ssa.Instruction, fc *FuncContr
 		return sv
 	}
 	s0 := setIn(st.heap)
-	if s0.Arr == nil {
-		vc.fail("iterates clause of %s does not denote an array-valued set", fc.Key)
+	sameAs := func(sv SetVal, arr Term) Term {
+		if sv.Arr != nil {
+			return Eq(*sv.Arr, arr)
+		}
+		y := Term{"y!", SInt}
+		return Forall([]Term{y}, Eq(sv.Mem(y), Select(arr, y)), []Term{Select(arr, y)})
 	}
-	snap := vc.script.Define("iter:set", *s0.Arr)
+	var snap Term
+	if s0.Arr != nil {
+		snap = vc.script.Define("iter:set", *s0.Arr)
+	} else {
+		snap = vc.script.Declare("iter:set", ArrSort(SInt, SBool))
+		vc.assume(st, sameAs(s0, snap))
+	}
 	// ghost visited set
 	id := vc.newRef(st, "iter:id")
 	vc.registerComp(iterVisited, compInfo{Sort: ArrSort(SInt, ArrSort(SInt, SBool)), Depth: 2, Ghost: true})
@@ -154,7 +165,24 @@ func (vc *VC) iterCall(fr *frame, st *State, site ssa.Instruction, fc *FuncContr
 		vc.hset(s, iterVisited, Store(vc.hget(s.heap, iterVisited), id, Store(visited, x, True)))
 		vc.noteWrite(iterVisited, id)
 		hint := tag + ":" + cv.fn.Name()
-		vals, o := vc.exec(cv.fn, append([]Value{Term(x)}, cv.bindings...), s, fr.depth+1, hint, false)
+		var arg Value = Term(x)
+		if spec.Yield != nil {
+			env := vc.contractEnv(s, s.heap, fc, args, ptypes)
+			env.vars["it"] = TV{x, s0.Elem}
+			func() {
+				defer func() {
+					if r := recover(); r != nil {
+						if ee, isEval := r.(evalError); isEval {
+							vc.fail("yielding clause of %s: %s", fc.Key, ee.msg)
+						}
+						panic(r)
+					}
+				}()
+				tv := env.eval(spec.Yield)
+				arg = vc.execValue(s, tv)
+			}()
+		}
+		vals, o := vc.exec(cv.fn, append([]Value{arg}, cv.bindings...), s, fr.depth+1, hint, false)
 		if o == nil {
 			return False, nil
 		}
@@ -186,7 +214,8 @@ func (vc *VC) iterCall(fr *frame, st *State, site ssa.Instruction, fc *FuncContr
 		vc.writes = saved
 		vc.normalizeWrites(w, checkpoint)
 		if saved != nil {
-			for comp, ws := range w {
+			for _, comp := range sortedKeys(w) {
+				ws := w[comp]
 				if ws.whole {
 					vc.noteWrite(comp, Term{})
 				}
@@ -211,7 +240,7 @@ func (vc *VC) iterCall(fr *frame, st *State, site ssa.Instruction, fc *FuncContr
 		}
 	}
 	sHead := setIn(st.heap)
-	vc.assume(st, Eq(*sHead.Arr, snap))
+	vc.assume(st, sameAs(sHead, snap))
 	{
 		q := Term{"q!", SInt}
 		visited := Select(vc.hget(st.heap, iterVisited), id)
@@ -243,7 +272,7 @@ func (vc *VC) iterCall(fr *frame, st *State, site ssa.Instruction, fc *FuncContr
 	if after != nil {
 		// iterator validity: the body must not have changed the set being iterated
 		sAfter := setIn(after.heap)
-		vc.oblige(after, "frame", "frame.iter@"+tag, "the set being iterated must not be modified by the loop body", Eq(*sAfter.Arr, snap))
+		vc.oblige(after, "frame", "frame.iter@"+tag, "the set being iterated must not be modified by the loop body", sameAs(sAfter, snap))
 		// back edge
 		back := &State{pc: vc.script.Define("pc:"+tag+".back", And(after.pc, cont)), heap: after.heap}
 		if vc.dry == 0 {
@@ -272,4 +301,133 @@ func (vc *VC) iterCall(fr *frame, st *State, site ssa.Instruction, fc *FuncContr
 	}
 	st.pc = vc.script.Define("pc:"+tag+".exit", Or(conds...))
 	st.heap = vc.mergeHeaps(conds, heaps)
+}
+
+// ---------------------------------------------------------------------------------------------
+// Forwarders: a function whose own contract says "iterates S with delegate" receives an opaque
+// delegate. It is verified against the delivery protocol with two ghost cells: the set D of elements
+// delivered so far and the flag "stopped" (the delegate returned false):
+//   * a direct call delegate(x) requires x in S, x not in D, not stopped; then D := D + {x};
+//   * handing the delegate to another iteration primitive over S' requires S' within S, disjoint
+//     from D, not stopped; afterwards D grew by a subset of S', by all of S' unless stopped;
+//   * at return: stopped or D == S.
+// The delegate is assumed not to modify the state of the structure being iterated (iterator validity
+// is the callers' obligation, frame.iter).
+
+const (
+	deliveredComp = "ghost:iter.delivered"
+	stoppedComp   = "ghost:iter.stopped"
+)
+
+func (vc *VC) declaredIterSet(fr *frame) (SetVal, bool) {
+	fc := vc.contract
+	if fc == nil || fc.Iterates == nil {
+		return SetVal{}, false
+	}
+	env := &Env{vc: vc, heap: vc.entry, old: vc.entry, vars: vc.topParams, cf: vc.fileOf(fc), pkgPath: vc.pkgOf(fc)}
+	var sv SetVal
+	func() {
+		defer func() {
+			if r := recover(); r != nil {
+				if ee, isEval := r.(evalError); isEval {
+					vc.fail("iterates clause: %s", ee.msg)
+				}
+				panic(r)
+			}
+		}()
+		sv = env.asSet(env.eval(fc.Iterates.Over))
+	}()
+	return sv, true
+}
+
+func (vc *VC) deliveryState(st *State) (d Term, stopped Term) {
+	vc.registerComp(deliveredComp, compInfo{Sort: ArrSort(SInt, ArrSort(SInt, SBool)), Depth: 1, Ghost: true})
+	vc.registerComp(stoppedComp, compInfo{Sort: ArrSort(SInt, SBool), Depth: 1, Ghost: true})
+	return Select(vc.hget(st.heap, deliveredComp), Zero), Select(vc.hget(st.heap, stoppedComp), Zero)
+}
+
+func (vc *VC) setDelivery(st *State, d, stopped Term) {
+	vc.hset(st, deliveredComp, Store(vc.hget(st.heap, deliveredComp), Zero, d))
+	vc.hset(st, stoppedComp, Store(vc.hget(st.heap, stoppedComp), Zero, stopped))
+	vc.noteWrite(deliveredComp, Zero)
+	vc.noteWrite(stoppedComp, Zero)
+}
+
+// delegateCall: a direct call of the opaque delegate.
+func (vc *VC) delegateCall(fr *frame, st *State, site ssa.Instruction, args []Value) Value {
+	decl, ok := vc.declaredIterSet(fr)
+	if !ok {
+		vc.fail("call of an opaque function value")
+	}
+	hint := vc.posHint(fr, site)
+	d, stopped := vc.deliveryState(st)
+	vc.oblige(st, "iter", "iter.deliver.afterstop@"+hint, vc.posString(site.Pos()), Not(stopped))
+	r := vc.script.Declare("delegate:r", SBool)
+	if vc.contract.Iterates.Yield == nil {
+		x := vc.toTerm(args[0])
+		vc.oblige(st, "iter", "iter.deliver.member@"+hint, vc.posString(site.Pos()), decl.Mem(x))
+		vc.oblige(st, "iter", "iter.deliver.once@"+hint, vc.posString(site.Pos()), Not(Select(d, x)))
+		vc.setDelivery(st, Store(d, x, True), Or(stopped, Not(r)))
+	} else {
+		vc.note("delivery protocol of " + vc.topKey + " checked for stop/forwarding only (yielded values are not elements)")
+		vc.setDelivery(st, d, Or(stopped, Not(r)))
+	}
+	vc.note("opaque delegates are assumed not to modify the structure being iterated")
+	return r
+}
+
+// forwardIter: the opaque delegate is handed to another iteration primitive.
+func (vc *VC) forwardIter(fr *frame, st *State, site ssa.Instruction, fc *FuncContract, args []Value, ptypes []SType) {
+	decl, ok := vc.declaredIterSet(fr)
+	if !ok {
+		vc.fail("iteration primitive %s called with an opaque delegate", fc.Key)
+	}
+	hint := vc.posHint(fr, site)
+	pre := vc.contractEnv(st, st.heap, fc, args, ptypes)
+	for i, c := range fc.Requires {
+		vc.obligeClause(pre, st, "pre", clauseName("pre", i, c), fmt.Sprintf("@%s:%s", hint, fc.Key), c)
+		t, err := pre.EvalBool(c.E)
+		if err != nil {
+			vc.fail("requires of %s: %v", fc.Key, err)
+		}
+		vc.assume(st, t)
+	}
+	var inner SetVal
+	func() {
+		defer func() {
+			if r := recover(); r != nil {
+				if ee, isEval := r.(evalError); isEval {
+					vc.fail("iterates clause of %s: %s", fc.Key, ee.msg)
+				}
+				panic(r)
+			}
+		}()
+		inner = pre.asSet(pre.eval(fc.Iterates.Over))
+	}()
+	d, stopped := vc.deliveryState(st)
+	y := Term{"y!", SInt}
+	vc.oblige(st, "iter", "iter.forward.afterstop@"+hint, vc.posString(site.Pos()), Not(stopped))
+	if vc.contract.Iterates.Yield == nil && fc.Iterates.Yield == nil {
+		vc.oblige(st, "iter", "iter.forward.subset@"+hint, vc.posString(site.Pos()), Forall([]Term{y}, Implies(inner.Mem(y), And(decl.Mem(y), Not(Select(d, y))))))
+	} else {
+		vc.note("delivery protocol of " + vc.topKey + " checked for stop/forwarding only (yielded values are not elements)")
+	}
+	nd := vc.script.Declare("iter:delivered", ArrSort(SInt, SBool))
+	ns := vc.script.Declare("iter:stopped", SBool)
+	vc.assume(st, Forall([]Term{y}, And(Implies(Select(d, y), Select(nd, y)), Implies(Select(nd, y), Or(Select(d, y), inner.Mem(y)))), []Term{Select(nd, y)}))
+	vc.assume(st, Implies(Not(ns), Forall([]Term{y}, Eq(Select(nd, y), Or(Select(d, y), inner.Mem(y))), []Term{Select(nd, y)})))
+	vc.assume(st, Implies(stopped, ns))
+	vc.setDelivery(st, nd, ns)
+	vc.note("opaque delegates are assumed not to modify the structure being iterated")
+}
+
+// deliveryAtReturn: the protocol obligation of a forwarder at each return.
+func (vc *VC) deliveryAtReturn(fr *frame, st *State, rn string) {
+	decl, ok := vc.declaredIterSet(fr)
+	if !ok || vc.contract.Iterates.Yield != nil {
+		return
+	}
+	d, stopped := vc.deliveryState(st)
+	y := Term{"y!", SInt}
+	vc.oblige(st, "iter", "iter.complete"+rn, "every element of the declared set is delivered unless the delegate stopped", Or(stopped, Forall([]Term{y}, Eq(Select(d, y), decl.Mem(y)))))
 }
